@@ -164,6 +164,7 @@ def run_driver(driver: str, lines: Sequence[str], timeout: int = 1500) -> list[s
         return []
     for ln in lines:
         assert '\n' not in ln, repr(ln)
+    ensure_driver_built(driver)
     data = '\n'.join(lines) + '\n'
     p = subprocess.run(['lake', 'env', 'lean', '--run', f'Drivers/{driver}.lean'], cwd=LEAN,
                        input=data, capture_output=True, text=True, timeout=timeout)
@@ -178,6 +179,23 @@ def run_driver(driver: str, lines: Sequence[str], timeout: int = 1500) -> list[s
 
 class DriverError(RuntimeError):
     pass
+
+
+_DRIVERS_BUILT: set[str] = set()
+
+
+def ensure_driver_built(driver: str) -> None:
+    """`lean --run Drivers/X.lean` loads the compiled .olean of every module the driver imports; make
+    sure they are up to date with the sources (a no-op when they are), once per process."""
+    if driver in _DRIVERS_BUILT:
+        return
+    src = LEAN / 'Drivers' / f'{driver}.lean'
+    mods = re.findall(r'^\s*import\s+(EPV[\w.]*)', src.read_text(), re.M) if src.exists() else []
+    if mods:
+        ok, out = lake_build(mods)
+        if not ok:
+            raise DriverError(f'driver {driver}: imported modules do not build\n{out[-3000:]}')
+    _DRIVERS_BUILT.add(driver)
 
 
 # --------------------------------------------------------------------------------------
